@@ -5,6 +5,7 @@
 use std::collections::HashMap;
 
 use rand::{rngs::StdRng, Rng, SeedableRng};
+use rustdds::{policy::{Durability, Reliability}, Duration, QosPolicyBuilder};
 use rustdds::verif::net::Sent;
 use rustdds::verif::writer_rig::{WriterCfg, WriterRig};
 use serde::{Deserialize, Serialize};
@@ -15,7 +16,16 @@ use crate::wire::{self, Sub};
 #[derive(Clone, Debug, Serialize, Deserialize)]
 #[serde(tag = "a")]
 pub enum WAct {
-    Match { r: u8, kind: String },
+    /// rtl (from TLC): the reader requests TransientLocal.  rdur (driver): the concrete announcement,
+    /// "tl" | "vol" | "unset" (durability left out, which means Volatile); empty = derive from rtl
+    Match {
+        r: u8,
+        kind: String,
+        #[serde(default)]
+        rtl: bool,
+        #[serde(default)]
+        rdur: String,
+    },
     Lose { r: u8 },
     /// single: 0 = for everyone, else the reader the sample is written for; big = fragmented
     Write { single: u8, big: bool },
@@ -147,9 +157,17 @@ impl WExec {
 
     pub fn step(&mut self, act: &WAct, out: &mut Vec<Value>) {
         match act {
-            WAct::Match { r, kind } => {
-                self.rig.match_reader(reader_guid(*r), kind == "rel", PORT0 + *r as u16);
-                self.common(json!({"ev":"Match","r":r,"kind":kind}), &[], out);
+            WAct::Match { r, kind, rtl, rdur } => {
+                // both encodings of "no history wanted" are one abstract class; alternate between them
+                let rdur: &str = if !rdur.is_empty() { rdur } else if *rtl { "tl" } else if (*r as usize + out.len()) % 2 == 0 { "vol" } else { "unset" };
+                let mut b = QosPolicyBuilder::new().reliability(if kind == "rel" { Reliability::Reliable { max_blocking_time: Duration::from_millis(100) } } else { Reliability::BestEffort });
+                match rdur {
+                    "tl" => b = b.durability(Durability::TransientLocal),
+                    "vol" => b = b.durability(Durability::Volatile),
+                    _ => {}
+                }
+                self.rig.match_reader_with_qos(reader_guid(*r), &b.build(), PORT0 + *r as u16);
+                self.common(json!({"ev":"Match","r":r,"kind":kind,"rtl":rdur == "tl","rdur":rdur}), &[], out);
             }
             WAct::Lose { r } => {
                 self.rig.lose_reader(reader_guid(*r));
@@ -316,7 +334,7 @@ pub fn random_run(rng: &mut StdRng, n_events: usize) -> WRunSpec {
                     kinds[r as usize] = if rel && rng.gen_bool(0.7) { "rel" } else { "be" };
                     acked[r as usize] = 1;
                 }
-                acts.push(WAct::Match { r, kind: kinds[r as usize].into() });
+                acts.push(WAct::Match { r, kind: kinds[r as usize].into(), rtl: false, rdur: ["unset", "vol", "tl"][rng.gen_range(0..3)].into() });
                 matched[r as usize] = true;
             }
         } else if x < 70 {
@@ -378,9 +396,9 @@ pub fn hostile_specs(seed: u64, runs: usize) -> Vec<WRunSpec> {
     for k in 0..runs {
         let cls = classes[k % classes.len()];
         let matched = (k / classes.len()) % 2 == 0;
-        let mut acts = vec![WAct::Match { r: 1, kind: "rel".into() }];
+        let mut acts = vec![WAct::Match { r: 1, kind: "rel".into(), rtl: false, rdur: "unset".into() }];
         if matched {
-            acts.push(WAct::Match { r: 3, kind: "rel".into() });
+            acts.push(WAct::Match { r: 3, kind: "rel".into(), rtl: false, rdur: "unset".into() });
         }
         let n = rng.gen_range(1..8);
         for _ in 0..n {
